@@ -152,6 +152,24 @@ def C03(ctx):
     for _ in range(ctx.n(400, 2000)):
         m = R.randbytes(R.choice([0, 1, 9, 10, 55, 56, 63, 64, 65, R.randrange(0, 200)]))
         cases.append(op_sha1(m, gen="prelude:sha1"))
+    # one digit string cut into PAN | PSN at every position, under one issuer key (a memo keyed on the concatenation)
+    for _ in range(ctx.n(10, 100)):
+        k = g.key(); digits = g.digits(R.choice([17, 18, 19, 20]))
+        cuts = list(range(len(digits) - 4, len(digits) + 1)); R.shuffle(cuts)
+        for cut in cuts + cuts[:2]:
+            cases.append(op_mk("b", k, g.form(digits[:cut]), g.form(digits[cut:]), gen="PAN|PSN cut at every position"))
+    # single- and triple-length issuer keys (accepted by the cipher; K3 takes part)
+    for _ in range(ctx.n(300, 3000)):
+        k = R.randbytes(R.choice([8, 24, 24]))
+        if len(k) == 24 and R.random() < .3:
+            k = k[:16] + k[:8]
+        cases.append(op_mk(R.choice("ab"), k, g.form(g.digits(R.choice([12, 16, 17, 19]))), g.form(R.choice([None, g.digits(2)])),
+                           gen="8- and 24-byte issuer keys"))
+    # PAN / PSN text as it is displayed or stored: grouped, tab-separated, trailing newline
+    for _ in range(ctx.n(600, 6000)):
+        pan = g.formatted(g.digits(R.choice([8, 12, 14, 15, 16, 16, 17, 18, 19])))
+        psn = R.choice([None, "00", g.digits(2), g.formatted(g.digits(2))])
+        cases.append(op_mk(R.choice("ab"), g.key(), g.form(pan), g.form(psn), gen="formatted PAN/PSN text"))
     # malformed: non-digit characters, odd psn, non-ascii bytes (class only)
     for _ in range(ctx.n(500, 3000)):
         pan = R.choice(["12345678901234AB", "1234 5678", "", "12345678901234567", "1234567890123456789012"])
